@@ -120,3 +120,27 @@ Definition case_params (attrs : list (qname * text)) (fr : option Q) (tr : Z) : 
   oq_eqb (extract_frame_rate attrs) fr && (extract_tick_rate attrs =? tr).
 Definition case_params_spec (attrs : list (qname * text)) (fr : option Q) (tr : Z) : bool :=
   match fr with Some f => Qeq_bool (spec_frame_rate attrs) f | None => false end && Qeq_bool (spec_tick_rate attrs) (inject_Z tr).
+
+(* ---- S (styling) on the code's output --------------------------------------------------------------------------------------------
+   [wftab]: the generator's table of (attribute, string, well-formed?) ; [valtab]: the number of the value that the code's own
+   extract gives to each (attribute, string) in isolation (equal values, equal numbers).  The code's specified styles of every
+   region and body element (document order) are given as sorted (property, value number) lists. *)
+From TT Require Import Spec.TtmlStyleSpec.
+Fixpoint tab_lookup {A} (t : list (qname * text * A)) (q : qname) (raw : text) : option A :=
+  match t with [] => None | (k, r, v) :: t' => if qname_eqb k q && text_eqb r raw then Some v else tab_lookup t' q raw end.
+Definition wf_of (wftab : list (qname * text * bool)) (q : qname) (raw : text) : bool :=
+  match tab_lookup wftab q raw with Some b => b | None => false end.
+Definition val_of (valtab : list (qname * text * Z)) (q : qname) (raw : text) : Z :=
+  match tab_lookup valtab q raw with Some i => i | None => -1 end.
+Fixpoint insert_kv (e : Z * Z) (l : list (Z * Z)) : list (Z * Z) :=
+  match l with [] => [e] | x :: l' => if fst e <=? fst x then e :: l else x :: insert_kv e l' end.
+Definition smap_ids (valtab : list (qname * text * Z)) (m : smap) : list (Z * Z) :=
+  fold_right insert_kv [] (List.map (fun e => (fst e, val_of valtab (fst (snd e)) (snd (snd e)))) m).
+Definition kv_eqb (a b : list (Z * Z)) : bool := list_eqb (fun x y => (fst x =? fst y) && (snd x =? snd y)) a b.
+Definition case_styles (x : xml) (wftab : list (qname * text * bool)) (valtab : list (qname * text * Z))
+                       (expected : list (list (Z * Z))) (initial : list (Z * Z)) : bool :=
+  let po := style_prop_of imsc_style_attrs in
+  list_eqb kv_eqb (List.map (smap_ids valtab) (doc_specified po (wf_of wftab) x)) expected &&
+  kv_eqb (smap_ids valtab (doc_initial po (wf_of wftab) x)) initial.
+Definition spec_styles (x : xml) (wftab : list (qname * text * bool)) (valtab : list (qname * text * Z)) : list (list (Z * Z)) :=
+  List.map (smap_ids valtab) (doc_specified (style_prop_of imsc_style_attrs) (wf_of wftab) x).
